@@ -9,13 +9,14 @@ EXTENDS Naturals, Sequences, FiniteSets, TLC, Json
 CONSTANTS MaxCap, MaxGuards, MaxClones, MaxDepth, NWakers,
           WakeOffset,      \* design 0: wake when a drop takes the count from cap to cap-1
           KeepFirstWaker,  \* design FALSE: a new refusal replaces the registered waker
-          AvailLe          \* design FALSE: available <=> count < cap   (TRUE: count <= cap)
+          AvailLe,         \* design FALSE: available <=> count < cap   (TRUE: count <= cap)
+          WakeBeforeDecrement \* design FALSE: the wake-up is delivered after the count was decremented
 
 VARIABLES cap, count, guards, nextGid, nclones, reg, refused, depth, act
 vars == <<cap, count, guards, nextGid, nclones, reg, refused, depth, act>>
 View == <<cap, count, guards, nextGid, nclones, reg, refused, depth>>
 
-NoAct == [op |-> "init", a |-> 0, w |-> 0, res |-> "", val |-> 0, woken |-> 0, total |-> 0]
+NoAct == [op |-> "init", a |-> 0, w |-> 0, res |-> "", val |-> 0, woken |-> 0, total |-> 0, inl |-> FALSE, inline |-> "none"]
 Bounded == MaxDepth = 0 \/ depth < MaxDepth
 
 Init == /\ cap \in 0..MaxCap /\ count = 0 /\ guards = {} /\ nextGid = 1 /\ nclones = 1
@@ -26,14 +27,21 @@ Get(c) == /\ Bounded /\ c \in 0..(nclones - 1) /\ nextGid <= MaxGuards
           /\ act' = [NoAct EXCEPT !.op = "get", !.a = c, !.val = nextGid, !.total = count + 1]
           /\ depth' = depth + 1 /\ UNCHANGED <<cap, nclones, reg, refused>>
 
-Drop(g) == /\ Bounded /\ g \in guards
-           /\ count' = count - 1 /\ guards' = guards \ {g}
-           /\ LET fire == count = cap + WakeOffset IN
-                /\ reg' = (IF fire THEN 0 ELSE reg)
-                /\ refused' = (IF fire /\ reg = refused THEN 0 ELSE refused)
-                /\ act' = [NoAct EXCEPT !.op = "drop", !.a = g, !.total = count - 1,
-                                        !.woken = (IF fire THEN reg ELSE 0)]
-           /\ depth' = depth + 1 /\ UNCHANGED <<cap, nextGid, nclones>>
+\* Drop of a guard.  `inl`: the woken task polls `available` again from INSIDE the wake-up (an executor that runs the
+\* woken task inline); what it sees depends on whether the count was already decremented when the wake-up is delivered.
+Drop(g, inl) ==
+  /\ Bounded /\ g \in guards
+  /\ count' = count - 1 /\ guards' = guards \ {g}
+  /\ LET fire == count = cap + WakeOffset
+         seen == IF WakeBeforeDecrement THEN count ELSE count - 1          \* count observed by an inline re-poll
+         ok   == IF AvailLe THEN seen <= cap ELSE seen < cap
+         rep  == fire /\ inl /\ reg # 0 IN
+       /\ reg' = (IF rep /\ ~ok THEN reg ELSE IF fire THEN 0 ELSE reg)       \* a refused inline re-poll registers again
+       /\ refused' = (IF rep /\ ~ok THEN reg ELSE IF fire /\ reg = refused THEN 0 ELSE refused)
+       /\ act' = [NoAct EXCEPT !.op = "drop", !.a = g, !.total = count - 1, !.inl = inl,
+                               !.woken = (IF fire THEN reg ELSE 0),
+                               !.inline = (IF rep THEN (IF ok THEN "true" ELSE "false") ELSE "none")]
+  /\ depth' = depth + 1 /\ UNCHANGED <<cap, nextGid, nclones>>
 
 Avail(c, w) == /\ Bounded /\ c \in 0..(nclones - 1)
                /\ IF (IF AvailLe THEN count <= cap ELSE count < cap)
@@ -50,7 +58,7 @@ Clone(c) == /\ Bounded /\ c \in 0..(nclones - 1) /\ nclones < MaxClones
             /\ depth' = depth + 1 /\ UNCHANGED <<cap, count, guards, nextGid, reg, refused>>
 
 Next == \/ \E c \in 0..(nclones - 1) : Get(c) \/ Clone(c) \/ \E w \in 1..NWakers : Avail(c, w)
-        \/ \E g \in guards : Drop(g)
+        \/ \E g \in guards, inl \in BOOLEAN : Drop(g, inl)
 Spec == Init /\ [][Next]_vars
 
 (* ---------------- property predicates (C17) ---------------- *)
